@@ -322,6 +322,8 @@ def compare_unit(ast, modes, case, rec=None):
             except OutOfDomain as x:
                 if rec is not None:
                     rec.note('out-of-domain:' + str(x))
+                    if 'leading/trailing whitespace' in str(x) and first is None:
+                        rec.excluded[FINDING_CLASSES['let-edge-ws']] += 1
                 return None
             if first is None:
                 first = b
